@@ -250,20 +250,20 @@ def histories(draw, max_ops: int = 50):
     n = draw(st.integers(5, max_ops))
     ops = []
     kinds = ["alloc", "alloc", "alloc", "finish", "finish", "get", "get", "get", "close", "close", "purge", "purge", "job_ok", "job_ok",
-             "job_ok", "job_io", "job_io", "job_mid", "job_fail", "clock", "alloc_p", "get_p", "free"]
+             "job_ok", "job_io", "job_io", "job_mid", "job_fail", "job_fail_in", "clock", "alloc_p", "get_p", "free"]
     churn = draw(st.booleans())
     nkeys = len(KEYS)
     if churn:
         # few keys, datasets about as large as the store, persistent requests: every request evicts, keys are written, spilled, read
         # back, purged and written again
         nkeys = draw(st.integers(2, 3))
-        kinds = ["write", "write", "write", "roundtrip", "roundtrip", "roundtrip", "roundtrip", "rewrite", "rewrite", "alloc_p", "finish",
-                 "get_p", "close", "purge", "job_ok", "get", "alloc", "clock", "job_fail", "job_mid"]
+        kinds = ["write", "write", "write", "roundtrip", "roundtrip", "roundtrip", "roundtrip", "rewrite", "rewrite", "roundtrip_fail", "alloc_p", "finish",
+                 "get_p", "close", "purge", "job_ok", "get", "alloc", "clock", "job_fail", "job_fail_in", "job_mid"]
     for _ in range(n):
         k = draw(st.sampled_from(kinds))
         if k in ("write", "rewrite"):
             ops.append([k, draw(st.integers(0, 59)), draw(st.integers(cap // 2 + 1, cap))])
-        elif k == "roundtrip":
+        elif k in ("roundtrip", "roundtrip_fail"):
             ops.append([k, draw(st.integers(0, 59))])
         elif k in ("alloc", "alloc_p"):
             if churn:
@@ -276,7 +276,7 @@ def histories(draw, max_ops: int = 50):
             ops.append([k, draw(st.integers(0, 59))])
         elif k == "close":
             ops.append([k, draw(st.integers(0, 59)), draw(st.integers(0, 3))])
-        elif k in ("job_ok", "job_fail", "job_io"):
+        elif k in ("job_ok", "job_fail", "job_io", "job_fail_in"):
             ops.append([k, draw(st.integers(0, 5))])
         elif k == "job_mid":
             # the disk half of a job with one client request executed in the middle of it (see LazyDisk.run_io)
@@ -794,7 +794,7 @@ class Machine:
         for op in ops:
             self.stats["ops"] += 1
             k = op[0]
-            if k in ("write", "rewrite", "roundtrip"):
+            if k in ("write", "rewrite", "roundtrip", "roundtrip_fail"):
                 # macro operations: short scripts of ordinary client requests (the invariants are checked after each request)
                 if k == "write":
                     ki = self._sel("alloc_p", op[1])
@@ -802,6 +802,10 @@ class Machine:
                 elif k == "rewrite":
                     ki = self._sel("purge", op[1])
                     script = [["purge", ki], ["alloc_p", ki, op[2]], ["finish", ki]]
+                elif k == "roundtrip_fail":
+                    # ask for a dataset (if it is on disk this issues its page-in), let that page-in fail, ask again
+                    ki = self._sel("get_p", op[1])
+                    script = [["get", ki], ["job_fail_in", 0], ["get", ki]]
                 else:
                     ki = self._sel("get_p", op[1])
                     script = [["get_p", ki], ["close", ki, 0]]
@@ -846,6 +850,11 @@ class Machine:
                 self.op_job(op[1], True)
             elif k == "job_fail":
                 self.op_job(op[1], False)
+            elif k == "job_fail_in":
+                # fail a pending page-IN job (they are rarer than page-outs and short-lived: picked by kind, not by position)
+                ins = [j for j, jm in enumerate(self.jobs_model) if jm["kind"] == "in" and j < len(self.ldisk.jobs)]
+                if ins:
+                    self.op_job(ins[op[1] % len(ins)], False)
             elif k == "job_io":
                 self.op_job_io(op[1])
             elif k == "job_mid":
